@@ -24,6 +24,7 @@ PROPS["C02"] = dict(
         "Zrnt.Proofs.C02.registry_scan_unfixed_witness",
         "Zrnt.Proofs.C02.activation_prefix_eq",
         "Zrnt.Proofs.C02.activations_eq",
+        "Zrnt.Proofs.C02.registry_updates_eq",
         "Zrnt.Proofs.C02.deneb_activation_limit_eq",
         "Zrnt.Proofs.C02.flat_snapshot_sound",
         "Zrnt.Proofs.C02.effectiveBalance_snapshot_eq",
